@@ -306,6 +306,11 @@ func (fgen *funcGen) irCallInst(new ir.Instruction, old *ast.CallInst) error {
 		return errors.WithStack(err)
 	}
 	sig, ok := typ.(*types.FuncType)
+	if ok {
+		if err := checkCallArgs(sig, inst.Args); err != nil {
+			return errors.WithStack(err)
+		}
+	}
 	if !ok {
 		// Preliminary function signature. Only used by fgen.irValue for inline
 		// assembly callees and constrant expressions.
